@@ -52,13 +52,13 @@ var jobTable = map[string]jobSet{
 		quick: []Job{
 			{Scenario: "sess/rounds=2/intruder", Budgets: bs(B(1, 0)), Split: 1},
 			{Scenario: "sess/rounds=2/closer=server", Budgets: bs(B(1, 0)), Filter: "mailbox", Split: 1},
-			{Scenario: "sess/rounds=3/closer=alt/v=1", Budgets: bs(B(1, 0)), Filter: "mailbox", Split: 1},
+			{Scenario: "sess/rounds=3/closer=server/v=1", Budgets: bs(B(1, 0)), Filter: "mailbox", Split: 1},
 			{Scenario: "sess/rounds=2/kill", Budgets: bs(B(0, 1)), Split: 1},
 		},
 		thorough: []Job{
 			{Scenario: "sess/rounds=2/intruder", Budgets: bs(B(2, 0)), Filter: "mailbox", Split: 2},
 			{Scenario: "sess/rounds=2/closer=server", Budgets: bs(B(2, 0)), Filter: "mailbox", Split: 2},
-			{Scenario: "sess/rounds=3/closer=alt/v=1", Budgets: bs(B(1, 0)), Split: 1},
+			{Scenario: "sess/rounds=3/closer=server/v=1", Budgets: bs(B(1, 0)), Split: 1},
 			{Scenario: "sess/rounds=2/kill/drop", Budgets: bs(B(1, 1), B(0, 2)), Filter: "mailbox", Split: 2},
 		},
 		quickS: 300, thoroughS: 1800,
